@@ -1,12 +1,12 @@
 CONSTANTS
-  Kind = "bw"
+  Kind = "bb"
   Items <- FileItems
   Fanout = 2
   CacheCap = 2
   Queries <- AllQ
-  ZRecs <- NoZ
-  MaxSteps = 3
-  FileId = 1
+  ZRecs <- FileZ
+  MaxSteps = 2
+  FileId = 5
 INIT MCInit
 NEXT MCNext
 INVARIANTS HistoryIndependent ZoomHistoryIndependent CacheCoherent Emit
